@@ -13,7 +13,7 @@ from ..engine import flow, cfg as cfgmod
 from ..engine import pattern as P
 from ..engine.facts import dotted, const, src, walk_func, enclosing_stmt
 from . import skeletons as sk
-from .common import calls, contains, pn, access_paths
+from .common import calls, contains, pn, access_paths, assigned_from
 
 
 @rule("C06.block-guard", min_instances=3)
@@ -112,9 +112,11 @@ def _anc(n):
 def getattr_order(ctx):
     """Namespace / TemplateNamespace / ModuleNamespace.__getattr__ consult callables, then their own members, then inherits, else AttributeError; _NSAttr walks inherits the same way"""
     db = ctx.db
-    own = {"runtime.Namespace": None, "runtime.TemplateNamespace": "self.template.has_def(key)", "runtime.ModuleNamespace": "hasattr(self.module, key)"}
+    own = {"runtime.Namespace": None, "runtime.TemplateNamespace": "self.template.has_def(%s)", "runtime.ModuleNamespace": "hasattr(self.module, %s)"}
     for q, own_test in own.items():
         fn = db.func(q + ".__getattr__")
+        kp = pn(fn, 1)
+        own_test = own_test % kp if own_test else None
         chain = []
         node = fn.body[0] if isinstance(fn.body[0], ast.If) else None
         ctx.require(node is not None, "%s.__getattr__ does not start with an if-chain" % q)
@@ -127,11 +129,14 @@ def getattr_order(ctx):
                 tail = cur.orelse
                 break
         tests = [t for t, _ in chain]
-        want = ["key in self.callables"] + ([own_test] if own_test else []) + ["self.inherits"]
+        want = [kp + " in self.callables"] + ([own_test] if own_test else []) + ["self.inherits"]
         ctx.check(tests == want, "order:" + q.split(".")[1], db.where(fn), "lookup order is %s, expected %s (own definition, else the nearest one toward the base)" % (tests, want), " -> ".join(want))
         ctx.check(any(isinstance(r, ast.Raise) and "AttributeError" in src(r) for s in tail for r in ast.walk(s)), "miss:" + q.split(".")[1], db.where(fn), "a missing member does not raise AttributeError", "AttributeError")
         inh = [b for t, b in chain if t == "self.inherits"]
-        ctx.check(bool(inh) and src(inh[0][0]) == "val = getattr(self.inherits, key)", "delegates:" + q.split(".")[1], db.where(fn), "inherited members are not fetched from self.inherits", "getattr(self.inherits, key)")
+        env_ = {}
+        okd = bool(inh) and P.matches(inh[0][0], "$v = getattr(self.inherits, %s)" % kp, env_) and isinstance(fn.body[-1], ast.Return) and isinstance(fn.body[-1].value, ast.Name) and fn.body[-1].value.id == src(env_["v"][1])
+        okd = okd or bool(inh) and P.matches(inh[0][0], "return getattr(self.inherits, %s)" % kp)
+        ctx.check(okd, "delegates:" + q.split(".")[1], db.where(fn), "inherited members are not fetched from self.inherits", "getattr(self.inherits, key)")
         if own_test:
             ob = [b for t, b in chain if t == own_test][0]
             ctx.check(any(P.has(s, "functools.partial($c, self.context)") for s in ob), "binds-context:" + q.split(".")[1], db.where(fn), "own members are not bound to the namespace's context", "partial(callable, self.context)")
@@ -150,13 +155,17 @@ def wiring(ctx):
     ctx.check(P.has(fn, "$s = $c['self']\n$ih = $s\nwhile $ih.inherits is not None:\n    ...") or P.has(fn, "$ih = $c['self']\nwhile $ih.inherits is not None:\n    ..."), "starts-at-self", db.where(fn), "the walk does not start at context['self']", "starts at the most-derived namespace")
     lc = [s for s in walk_func(fn) if isinstance(s, ast.Assign) and src(s.targets[0]) == "lclcontext"]
     ctx.check(P.has(fn, "while $ih.inherits is not None:\n    ...\n$l = $c._locals({'next': $ih})"), "next", db.where(fn), "`next` of the parent is not the previous tail of the chain", "next = previous tail")
-    a = [s for s in walk_func(fn) if isinstance(s, ast.Assign) and dotted(s.targets[0]) == "ih.inherits"]
-    ctx.require(a, "_inherit_from does not assign ih.inherits")
+    ihs = {env_["ih"][1].id for _n, env_ in P.find(fn, "while $ih.inherits is not None:\n    $ih = $ih.inherits") if isinstance(env_["ih"][1], ast.Name)}
+    lcs = assigned_from(fn, "$c._locals({'next': $ih})")
+    tvs = assigned_from(fn, "_lookup_template(...)")
+    a = [s for s in walk_func(fn) if isinstance(s, ast.Assign) and isinstance(s.targets[0], ast.Attribute) and s.targets[0].attr == "inherits" and src(s.targets[0].value) in ihs]
+    ctx.require(a and len(ihs) == 1 and len(lcs) == 1 and len(tvs) == 1, "_inherit_from does not assign <tail>.inherits (tail %s, parent context %s, template %s)" % (sorted(ihs), sorted(lcs), sorted(tvs)))
+    ih, lcl, tv = sorted(ihs)[0], sorted(lcs)[0], sorted(tvs)[0]
     v = a[0].value
     kw = {k.arg: src(k.value) for k in v.keywords} if isinstance(v, ast.Call) else {}
-    ctx.check(isinstance(v, ast.Call) and dotted(v.func) == "TemplateNamespace" and src(v.args[1]) == "lclcontext" and kw.get("template") == "template" and kw.get("populate_self") == "False", "parent-namespace", db.where(a[0]), "parent namespace is built as %s" % src(v), "TemplateNamespace('self:<uri>', lclcontext, template=template, populate_self=False)")
+    ctx.check(isinstance(v, ast.Call) and dotted(v.func) == "TemplateNamespace" and src(v.args[1]) == lcl and kw.get("template") == tv and kw.get("populate_self") == "False", "parent-namespace", db.where(a[0]), "parent namespace is built as %s" % src(v), "TemplateNamespace('self:<uri>', lclcontext, template=template, populate_self=False)")
     pub = [s for s in walk_func(fn) if isinstance(s, ast.Assign) and len(s.targets) == 2]
-    ok = any({src(x) for x in s.targets} == {"context._data['parent']", "lclcontext._data['local']"} and src(s.value) == "ih.inherits" for s in pub)
+    ok = any({src(x) for x in s.targets} == {"%s._data['parent']" % pn(fn, 0), "%s._data['local']" % lcl} and src(s.value) == ih + ".inherits" for s in pub)
     ctx.check(ok, "parent-local", db.where(fn), "the namespace stored as ih.inherits is not the one published as `parent` of the child and `local` of the parent", "parent (child's context) = local (parent's context) = ih.inherits")
     ctx.check(P.has(fn, "$f = getattr($t.module, '_mako_inherit', None)\nif $f is not None:\n    $r = $f($t, $l)\n    if $r:\n        return $r"), "recursive-inherit", db.where(fn), "the parent's own _mako_inherit is not followed", "follows the parent's <%inherit> first")
     r = [x for x in walk_func(fn) if isinstance(x, ast.Return)]
